@@ -240,8 +240,12 @@ pub fn run_x64(pages: &mut Pages, c: &X64Case, far_base: u64) -> Outcome {
             let run = vkit::x64::run_to(c.a, &mem, &ours, 8, if matches!(c.kind, Kind::Exec) { Some(c.fake) } else { None });
             o.trace = run.trace.clone();
             let entry_now = image(c.a, 16);
-            o.entry_len_long = entry_now[0] != 0xE9;
-            o.tramp_long = run.trace.iter().any(|t| t.starts_with("jmp r"));
+            // coverage classes by *placement*, not by today's encodings: is the trampoline beyond rel32
+            // reach of the entry, is the fake beyond rel32 reach of the trampoline
+            let _ = &entry_now;
+            let tramp0 = owned.first().map(|&(s, _)| s as i128);
+            o.entry_len_long = tramp0.map(|t| (t - (c.a as i128 + 5)).abs() > i32::MAX as i128).unwrap_or(false);
+            o.tramp_long = tramp0.map(|t| (c.fake as i128 - t).abs() > i32::MAX as i128 - 64).unwrap_or(false);
             use vkit::x64::Stop;
             match (&c.kind, &run.stop) {
                 (Kind::Exec, Stop::Left { pc }) if *pc == c.fake => {}
@@ -346,7 +350,7 @@ pub fn run_x64(pages: &mut Pages, c: &X64Case, far_base: u64) -> Outcome {
 /// "Windows-style" long entry patch (encoder level, feature `priv_access`): `patch_and_guard(src, jit)`
 /// with the trampoline block beyond +/-2 GiB of the function, which the Linux allocator never
 /// produces.  The block at `jit` is a stub the harness wrote itself.
-#[cfg(feature = "priv_access")]
+#[cfg(feature = "priv_amd64")]
 pub fn run_x64_far_entry(pages: &mut Pages, a: u64, jit: u64) -> Outcome {
     let mut o = Outcome::default();
     let tpage = a & !0xFFF;
@@ -383,7 +387,7 @@ pub fn run_x64_far_entry(pages: &mut Pages, a: u64, jit: u64) -> Outcome {
             let ours = |x: u64| x >= a && x < a + 16;
             let run = vkit::x64::run_to(a, &mem, &ours, 4, Some(jit));
             o.trace = run.trace.clone();
-            o.entry_len_long = unsafe { arena::read(a, 1) }[0] != 0xE9;
+            o.entry_len_long = (jit as i128 - (a as i128 + 5)).abs() > i32::MAX as i128;
             match &run.stop {
                 vkit::x64::Stop::Left { pc } if *pc == jit => {}
                 other => o.viols.push(Viol { prop: "C01", key: "x86_64:long-entry-wrong-destination".into(), what: format!("entry patch for a trampoline at {jit:#x} ({:+#x} from the function): machine ends with {other:?} (path: {})", jit as i128 - a as i128, run.trace.join("; ")) }),
